@@ -1,10 +1,21 @@
 /-
 C20 — syncing converges to the same chain and state. Property theorems only
-(helper lemmas live in Proofs/Queue*.lean, Proofs/StateSync*.lean).
+(helper lemmas and the definitions `Inv`, `Calm`, `Fresh`, `Retained`, `Filled`, `Active`, `Good`
+live in Proofs/Queue*.lean; the model is Model/Queue.lean).
+
+Part (a): the block queue `pkg/network/bqueue`. All theorems quantify over every capacity, start
+height and every interleaving (`List Act`) of the model's atomic steps: producer puts with arbitrarily
+stale heights, single steps of the `Run` goroutine, blocks added to the chain by another writer,
+`Discard`. "Calm" interleavings exclude `Discard` and one specific race (an external addition between
+`Run`'s unlocked height read and its lock section); the race and two further defects of the code as
+written are proved on concrete witnesses below (`…_witness`), they are the replays of the findings.
 -/
 import NeoModel.Model.Queue
 import NeoModel.Proofs.QueueChain
+import NeoModel.Proofs.QueueReach
 namespace NeoModel.Queue
+
+private def el (i t : Nat) : Elem := { idx := i, tag := t, ok := true }
 
 /-- C20 (queue, order/once): for every capacity, start height and every interleaving of producer puts
 (with arbitrarily stale heights), steps of `Run`, blocks added by other writers and `Discard`, the
@@ -17,10 +28,209 @@ theorem queue_in_order_once (cap h0 : Nat) (as : List Act) :
 
 -- non-vacuity: a schedule with a duplicate, an out-of-order put and an external block applies 1,2,3
 example :
-    let e (i t : Nat) : Elem := { idx := i, tag := t, ok := true }
     let s := exec (init 4 0)
-      [.run, .put (e 2 0) 0, .put (e 1 1) 0, .put (e 1 2) 0, .run, .run, .run, .run, .adv, .run, .run, .run, .run,
-       .put (e 3 3) 2, .run, .run, .run, .run, .run]
+      [.run, .put (el 2 0) 0, .put (el 1 1) 0, .put (el 1 2) 0, .run, .run, .run, .run, .adv, .run, .run, .run, .run,
+       .put (el 3 3) 2, .run, .run, .run, .run, .run]
     applied s.log = [1, 2, 3] ∧ s.height = 3 := by decide
+
+/-- C20 (queue, ring): in every reachable state (any interleaving, races included) a `Put` — whatever
+element, whatever stale height its producer read — never overwrites a slot holding an element above the
+chain height (a not-yet-applied block). -/
+theorem ring_no_overwrite (cap h0 : Nat) (hc : 0 < cap) (as : List Act) (e : Elem) (hr p : Nat) (x : Elem) :
+    let s := exec (init cap h0) as
+    s.ring p = some x → s.height < x.idx → (apply s (.put e hr)).ring p = some x := by
+  intro s hx hl
+  exact put_keeps s (inv_exec _ as (inv_init cap h0 hc)) e _ (Nat.min_le_right _ _) p x hx hl
+
+-- non-vacuity: slot 1 holds block 5; a put of 9 (same slot, outside the window) and of 5' leave it there
+example :
+    let s := exec (init 4 3) [.put (el 5 0) 3]
+    s.ring 1 = some (el 5 0) ∧ s.height < 5 ∧
+    (apply s (.put (el 9 1) 3)).ring 1 = some (el 5 0) ∧ (apply s (.put (el 5 2) 3)).ring 1 = some (el 5 0) := by
+  decide
+
+/-- C20 (queue): in calm interleavings `Run` never offers the chain an element above `height+1`
+(so a failed `AddItem` of a valid element means its index is already on the chain). -/
+theorem queue_offers_only_next (cap h0 : Nat) (hc : 0 < cap) (as : List Act)
+    (hcalm : Calm (init cap h0) as) (b : Elem) (pos : Nat) :
+    let s := exec (init cap h0) as
+    s.pc = .holding b pos → b.idx ≤ s.height + 1 := by
+  intro s hp
+  exact (fresh_exec _ as (inv_init cap h0 hc) (fresh_init cap h0) hcalm).holding b pos hp
+
+example : Calm (init 4 0) [.run, .put (el 1 0) 0, .run, .run, .run] ∧
+    (exec (init 4 0) [.run, .put (el 1 0) 0, .run, .run, .run]).pc = .holding (el 1 0) 1 := by
+  exact ⟨(calm_iff _ _).2 (by decide), by decide⟩
+
+/-- C20 (queue, no loss): in calm interleavings a valid element that sits in the ring stays `Retained`
+for ever after: its index is on the chain, or it is still in its slot, or `Run` is holding it for
+`AddItem`. -/
+theorem queue_no_loss (cap h0 : Nat) (hc : 0 < cap) (pre post : List Act) (x : Elem) (hok : x.ok = true)
+    (hcalm : Calm (init cap h0) (pre ++ post))
+    (hin : (exec (init cap h0) pre).ring (posOf cap x.idx) = some x) :
+    Retained (exec (init cap h0) (pre ++ post)) x := by
+  have hexec : ∀ (s : State) (as bs : List Act), exec s (as ++ bs) = exec (exec s as) bs := by
+    intro s as bs; induction as generalizing s with
+    | nil => rfl
+    | cons a r ih => exact ih _
+  rw [calm_append] at hcalm
+  rw [hexec]
+  have hi := inv_exec _ pre (inv_init cap h0 hc)
+  have hcap : (exec (init cap h0) pre).cap = cap := by
+    have : ∀ (s : State) (as : List Act), (exec s as).cap = s.cap := by
+      intro s as; induction as generalizing s with
+      | nil => rfl
+      | cons a r ih =>
+        rw [exec, ih]
+        cases a with
+        | put e hr => exact (put_frame s e _).2.2.1
+        | adv => rfl
+        | disc => simp only [apply, discard]; split <;> rfl
+        | run =>
+          simp only [apply, runStep]; split <;> try rfl
+          unfold wake; split
+          · rfl
+          · split <;> rfl
+    exact this _ _
+  exact retained_exec _ post x hi (fresh_exec _ pre (inv_init cap h0 hc) (fresh_init cap h0) hcalm.1) hok hcalm.2
+    (.inr (.inl (by rw [hcap]; exact hin)))
+
+/-- C20 (queue, progress): take any state reached by a calm interleaving in which every index in
+`(height, m]` has a valid element in its slot and `Run` is inside its loop or has a signal pending.
+Then `Run`, executed alone, brings the chain to height `m` (or beyond). -/
+theorem queue_reaches (cap h0 : Nat) (hc : 0 < cap) (as : List Act) (hcalm : Calm (init cap h0) as) (m : Nat) :
+    let s := exec (init cap h0) as
+    Filled s m → Active s → ∃ n, m ≤ (runN n s).height := by
+  intro s hf ha
+  have hnd : ∀ (t : State) (bs : List Act), Calm t bs → t.discarded = false → (exec t bs).discarded = false := by
+    intro t bs; induction bs generalizing t with
+    | nil => intro _ h; exact h
+    | cons a r ih => intro hc' h; exact ih _ hc'.2.2 (nd_apply t a hc'.2.1 h)
+  exact reaches s m
+    ⟨inv_exec _ as (inv_init cap h0 hc), fresh_exec _ as (inv_init cap h0 hc) (fresh_init cap h0) hcalm,
+     hnd _ as hcalm rfl, fun _ => ⟨hf, ha⟩⟩
+
+/-- C20 (queue, progress is not lost by interference): the premise of `queue_reaches` survives every
+further calm step of every party (puts, external additions, `Run` itself) until height `m` is reached. -/
+theorem queue_reaches_stable (cap h0 : Nat) (hc : 0 < cap) (as bs : List Act)
+    (hcalm : Calm (init cap h0) (as ++ bs)) (m : Nat) :
+    let s := exec (init cap h0) as
+    let s' := exec (init cap h0) (as ++ bs)
+    Filled s m → Active s → s'.height < m → Filled s' m ∧ Active s' := by
+  intro s s' hf ha
+  have hexec : ∀ (s : State) (as bs : List Act), exec s (as ++ bs) = exec (exec s as) bs := by
+    intro s as bs; induction as generalizing s with
+    | nil => rfl
+    | cons a r ih => exact ih _
+  have hnd : ∀ (t : State) (bs : List Act), Calm t bs → t.discarded = false → (exec t bs).discarded = false := by
+    intro t bs; induction bs generalizing t with
+    | nil => intro _ h; exact h
+    | cons a r ih => intro hc' h; exact ih _ hc'.2.2 (nd_apply t a hc'.2.1 h)
+  rw [calm_append] at hcalm
+  have g : Good s m :=
+    ⟨inv_exec _ as (inv_init cap h0 hc), fresh_exec _ as (inv_init cap h0 hc) (fresh_init cap h0) hcalm.1,
+     hnd _ as hcalm.1 rfl, fun _ => ⟨hf, ha⟩⟩
+  have gs : ∀ (t : State) (bs : List Act), Calm t bs → Good t m → Good (exec t bs) m := by
+    intro t bs; induction bs generalizing t with
+    | nil => intro _ h; exact h
+    | cons a r ih => intro hc' h; exact ih _ hc'.2.2 (good_apply t m a hc'.1 hc'.2.1 h)
+  have g' : Good s' m := by
+    show Good (exec (init cap h0) (as ++ bs)) m
+    rw [hexec]; exact gs s bs hcalm.2 g
+  exact g'.go
+
+-- non-vacuity of `queue_reaches`/`queue_reaches_stable`: 11,12,13 queued behind a sleeping `Run` with a signal
+example :
+    let as : List Act := [.run, .put (el 12 0) 10, .put (el 13 1) 10, .put (el 11 2) 10]
+    let s := exec (init 4 10) as
+    Calm (init 4 10) as ∧ Filled s 13 ∧ Active s ∧ (runN 14 s).height = 13 := by
+  refine ⟨(calm_iff _ _).2 (by decide), ?_, .inl (by decide), by decide⟩
+  intro i h1 h2
+  have h1' : 10 < i := h1
+  have : i = 11 ∨ i = 12 ∨ i = 13 := by omega
+  rcases this with rfl | rfl | rfl
+  · exact ⟨el 11 2, by decide, rfl, rfl⟩
+  · exact ⟨el 12 0, by decide, rfl, rfl⟩
+  · exact ⟨el 13 1, by decide, rfl, rfl⟩
+
+/-- C20 (queue): the clean-up loop of `Run` (queue.go:105-111) is dead code for every capacity ≥ 2: in
+every reachable state it leaves the ring and `len` untouched, whatever range of heights it is run over. -/
+theorem queue_cleanup_dead (cap h0 : Nat) (hc : 2 ≤ cap) (as : List Act) (n i : Nat) :
+    let s := exec (init cap h0) as
+    cleanup s.cap n i s.ring s.len = (s.ring, s.len) := by
+  intro s
+  have hi := inv_exec _ as (inv_init cap h0 (by omega))
+  have hcap : s.cap = cap := by
+    have : ∀ (s : State) (as : List Act), (exec s as).cap = s.cap := by
+      intro s as; induction as generalizing s with
+      | nil => rfl
+      | cons a r ih =>
+        rw [exec, ih]
+        cases a with
+        | put e hr => exact (put_frame s e _).2.2.1
+        | adv => rfl
+        | disc => simp only [apply, discard]; split <;> rfl
+        | run =>
+          simp only [apply, runStep]; split <;> try rfl
+          unfold wake; split
+          · rfl
+          · split <;> rfl
+    exact this _ _
+  exact cleanup_dead s.cap n i s.ring s.len (by omega) hi.slot
+
+/-! ### The code as written violates the property outside calm interleavings (and drifts inside) -/
+
+theorem runN_blocked (n : Nat) (s : State) (h1 : s.pc = .wait) (h2 : s.signal = false)
+    (h3 : s.discarded = false) : runN n s = s := by
+  induction n with
+  | zero => rfl
+  | succ n ih =>
+    have : runStep s = s := by simp [runStep, h1, wake, h2, h3]
+    simp only [runN, this, ih]
+
+/-- FINDING (stuck-ext). Blocks 12, 13 are queued, `Run` sleeps because 11 is missing; another writer of
+the chain adds 11. Nobody signals `Run`: 12 and 13 are contiguous with the chain and valid, yet no number
+of `Run` steps applies them (until some later in-window `Put`). Negation of "reaches the highest
+contiguous block it was given" for interleavings with an external writer. -/
+theorem queue_stuck_after_external_add_witness :
+    let s := exec (init 4 10) [.run, .put (el 12 0) 10, .put (el 13 1) 10, .run, .run, .run, .adv]
+    s.height = 11 ∧ s.ring (posOf 4 12) = some (el 12 0) ∧ s.ring (posOf 4 13) = some (el 13 1) ∧
+    ∀ n, (runN n s).height = 11 := by
+  refine ⟨by decide, by decide, by decide, ?_⟩
+  intro n
+  rw [runN_blocked n _ (by decide) (by decide) (by decide)]
+  decide
+
+/-- FINDING (additem-ahead-ext). `Run` reads height 5 outside the lock; another writer adds block 6; a
+producer puts block 10 = 6 + cap (inside the window, same slot as 6); `Run`'s lock section takes it,
+`AddItem(10)` fails at height 6 and the slot is cleared: a valid in-window block is lost unapplied.
+Negation of `queue_no_loss` without the calmness hypothesis. -/
+theorem queue_drops_window_top_on_race_witness :
+    let pre : List Act := [.run, .put (el 7 0) 5, .run, .run, .adv, .put (el 10 1) 6]
+    let s := exec (init 4 5) pre
+    let s' := exec (init 4 5) (pre ++ [.run, .run, .run])
+    s.ring (posOf 4 10) = some (el 10 1) ∧ s.height < 10 ∧ 10 ≤ s.height + 4 ∧
+    ¬ Retained s' (el 10 1) ∧ s'.log = [.ext 6, .add (el 10 1) false] := by
+  refine ⟨by decide, by decide, by decide, ?_, by decide⟩
+  intro h
+  rcases h with h | h | ⟨p, h⟩
+  · revert h; decide
+  · revert h; decide
+  · have hpc : (exec (init 4 5) ([.run, .put (el 7 0) 5, .run, .run, .adv, .put (el 10 1) 6] ++ [.run, .run, .run])).pc = .top := by
+      decide
+    rw [hpc] at h; cases h
+
+/-- FINDING (len-drift). Two producers deliver block 1, the second one read the height before the first
+copy was applied; the stale copy stays in slot 1 (the clean-up loop never removes anything) and is counted
+again when block 5 replaces it. After everything is applied the ring is empty, `Run` sleeps, and
+`LastQueued` reports 3 free slots of 4. The interleaving is calm (no external writer at all). -/
+theorem queue_len_drift_witness :
+    let as : List Act := [.run, .put (el 1 0) 0, .run, .run, .run, .run, .run, .run, .run,
+      .put (el 1 1) 0, .run, .run, .run,
+      .put (el 5 2) 1, .put (el 2 3) 1, .put (el 3 4) 1, .put (el 4 5) 1] ++ List.replicate 24 .run
+    let s := exec (init 4 0) as
+    Calm (init 4 0) as ∧ s.height = 5 ∧ s.pc = .wait ∧ (∀ p, p < 4 → s.ring p = none) ∧
+    lastQueued s = (5, 3) := by
+  exact ⟨(calm_iff _ _).2 (by decide), by decide, by decide, by decide, by decide⟩
 
 end NeoModel.Queue
